@@ -122,6 +122,7 @@ type loopInfo struct {
 	havocSt *State
 	variant EVal
 	auto    []*autoInv
+	entryVals map[ssa.Value]Val
 }
 
 func NewTr(P *Program, fn *ssa.Function, c *Contract) *Tr {
